@@ -11,8 +11,8 @@ supplies the failing bytes).
 `decodeOvw_eq_partial` assumes the payload is shorter than 2^63 bytes (the
 `max_size()` of the vector it arrives in), `decodeCues_eq_partial` /
 `decodeLoops_eq_partial` that it is shorter than 2^61 bytes: the generated model
-checks signed arithmetic and `vector::reserve` against the C++ limits, the hand
-model works with unbounded integers and has no `reserve`.
+checks `vector::reserve` / `resize` against `max_size()` (the hand model has no
+`reserve`) and signed arithmetic against the `int64_t` range.
 -/
 import EngineModel.Gen.ImplV2Gen
 import EngineModel.Impl.V2
@@ -41,7 +41,12 @@ theorem decodeTrack_eq : decodeTrack = Impl.V2.decodeTrack := by
   simp only [CxxPrims.decode_uint8_eq, CxxPrims.decode_int32_le_eq, CxxPrims.decode_int32_be_eq,
     CxxPrims.decode_int64_le_eq, CxxPrims.decode_int64_be_eq, CxxPrims.decode_double_le_eq,
     CxxPrims.decode_double_be_eq]
-  by_cases h : bs.length < 44 <;> simp [h, Res.bind]
+  -- (both readings of the length test are discharged: `buf.size() < 44` and `end - ptr < 44`)
+  by_cases h : bs.length < 44
+  · have hi : (bs.length : Int) < 44 := by omega
+    simp [h, hi, Res.bind]
+  · have hi : ¬ ((bs.length : Int) < 44) := by omega
+    simp [h, hi, Res.bind]
 
 /-! ### beat data -/
 
@@ -87,7 +92,11 @@ theorem decodeBeat_eq : decodeBeat = Impl.V2.decodeBeat := by
     CxxPrims.decode_int64_le_eq, CxxPrims.decode_int64_be_eq, CxxPrims.decode_double_le_eq,
     CxxPrims.decode_double_be_eq]
   rw [decodeGrid_eq]
-  by_cases h : bs.length < 33 <;> simp [h, Res.bind]
+  by_cases h : bs.length < 33
+  · have hi : (bs.length : Int) < 33 := by omega
+    simp [h, hi, Res.bind]
+  · have hi : ¬ ((bs.length : Int) < 33) := by omega
+    simp [h, hi, Res.bind]
 
 /-! ### loops -/
 
@@ -261,10 +270,10 @@ theorem rd3_run (a b c : UInt8) (t : Bytes) {β} (f : UInt8 → UInt8 → UInt8 
 
 /-- `overview_waveform_data_blob::from_blob`.
 Full statement: `decodeOvw = Impl.V2.decodeOvw`.  The hypothesis is `std::vector<std::byte>::max_size()`:
-every payload the C++ function can be handed satisfies it.  It is needed because the third disjunct of the
-length guard computes `3 * (num_entries_1 + 1)` in `int64_t` (checked in the generated model: `chkI64`),
-which is in range because `num_entries_1 <= (end - ptr) / 3` was tested first and `end - ptr < 2^63`; the
-hand model computes in unbounded integers.  Likewise `resize(num_entries_1)` stays below `max_size()`. -/
+every payload the C++ function can be handed satisfies it.  It is needed because `resize(num_entries_1)` must stay below `max_size()` and because the third
+disjunct of the length guard computes `3 * (num_entries_1 + 1)` in `int64_t` (checked in the generated model:
+`chkI64`; checked in the hand model too: `Chk.add64`, `Chk.mul64`), which is in range because
+`num_entries_1 <= (end - ptr) / 3` was tested first and `end - ptr < 2^63`. -/
 theorem decodeOvw_eq_partial (bs : Bytes) (hb : bs.length < 9223372036854775808) :
     decodeOvw bs = Impl.V2.decodeOvw bs := by
   unfold decodeOvw Impl.V2.decodeOvw Cur.fromBlob
